@@ -10,6 +10,12 @@
      * the tree of handlers derived from it with WithAttrs / WithGroup;
      * the probes Enabled(level), Handle(record) (through a real log/slog.Logger or with a
        hand-made record carrying its own time) and Entry.Log(level);
+     * RECORD TIMES (catalogue RecTimes): the time a hand-made record carries is any time.Time - the
+       zero value, the Unix epoch, the last nanosecond of year 9999, instants expressed in several
+       zones - and what is emitted is that INSTANT (see RECORD TIMES below);
+     * NESTED records (event Nested): while a record is being handled, one of its attribute values
+       (a LogValuer, a Stringer, an error) logs another record through the same handler, a handler
+       of the same family or another handler on the same logger (see NESTED RECORDS below);
      * the std-log bridge: NewLogLogger(logger, severity), Print(msg) / Writer().Write(bytes);
      * the PROCESS-WIDE LEVEL REGISTRY: RegisterLevel(custom value, title, RegWithTreatedAsLevel,
        RegWithPrintToErrorDevice, RegWithShortTags) may happen at any moment of a process's life -
@@ -23,6 +29,7 @@
    STATE (fields of st)
      phase   "init" | "handler" | "bridge"
      lg      the underlying logger: [level, fmt]   (fmt \in {"json","logfmt","color"})
+     oi      the options NewSlogHandler was called with (index into Opts; 0 = not yet)
      caller  the process-wide "print caller" flag (set by NewSlogHandler from NoSource)
      dbg     the process-wide debug mode (switched on by giving any logger the level Debug;
              part of the gating rule of property C01, see Levels!Admit)
@@ -87,6 +94,41 @@
    (log/slog gives up after 100 rounds and substitutes an error value): the statement says "resolved",
    and such a value has no resolved form to compare with.
 
+   RECORD TIMES.  "The record's own time" (statement): a record handed to Handler.Handle carries a
+   time.Time and the underlying logger prints that INSTANT - whatever it is.  A catalogue entry is
+       [d, s, n, off, kind]
+   the civil date and time AS THE CALLER EXPRESSED THEM - d days since 0001-01-01 (0 = that day, -1 =
+   the day before), s seconds of that day, n nanoseconds - in a zone off seconds east of UTC; kind
+   only names the entry ("zero" = the zero time.Time, "zero-zone" = the same instant expressed in
+   another zone - still IsZero() -, "near-zero", "epoch", "pre-epoch", "y9999", "zone" = one instant
+   given twice, in two zones, "ordinary").
+     Instant(tm)    DECLARATIVE: the instant, normalised [d, s, n] in UTC; the zone is presentation.
+                    The zero time is an instant like any other: day 0, second 0 - NOT "no time" and
+                    not "now" (log/slog's own handlers leave the time out of such a record; the
+                    underlying logger has no record without a time, and the statement says "the
+                    record's own time").  Time id 0 = the record was made by log/slog.Logger, which
+                    stamps it during the call ("now").
+     EmitTime(t)    MECHANISM: the time id the handler passes on                    -> OwnTimeKept
+     TimeCover      the exhaustive configuration names the kinds its Handle probes must contain
+
+   NESTED RECORDS.  Event Nested(h, h2, cell): a record is logged through handler h whose FIRST
+   attribute is a CARRIER - a value that, when the handler (or the underlying logger's formatter) asks
+   it for its content, logs an inner record of its own through handler h2 and then yields its content:
+       "valuer"        a LogValuer; LogValue() logs, then yields a plain value
+       "valuer-group"  a LogValuer; LogValue() logs, then yields a group with one member
+       "stringer"      a value of kind Any with a String() method that logs, then yields its text
+       "error"         an error whose Error() logs, then yields its text
+   h2 is the same handler, its parent/ancestor, a sibling, a descendant, any other handler of the
+   family (all derived from the one NewSlogHandler call), or 0 = ANOTHER handler made for the same
+   logger by a second NewSlogHandler(logger, same options) - which changes nothing (SecondAdapterSame).
+   EXPECTED (NestedPair): the call returns; BOTH records are emitted, each once per time it was
+   logged - the outer once, the inner once per time the carrier was asked (observed) and admitted -
+   each with ITS OWN content: own message, own time, own severity, own attributes (the outer's contain
+   the carrier's content, the inner's do not), the attributes given to its OWN handler, under its own
+   handler's groups; same destination and format (one logger).  The order of the two is not fixed.
+   A call that DOES NOT RETURN is no behaviour of the model (NestedReturns): the harness's watchdog
+   records it ("hang") and the trace specification rejects the line.            -> NestedOwnContent
+
    FLATTENED FORM: a shape's leaves [p, k, v, o, w] - p the path of keys
    (groups outermost first, the leaf's key last), k the value kind, v the value id, o the path of
    ORDINALS: o[d] is the position of the leaf's ancestor at depth d (the leaf itself for the last
@@ -128,7 +170,13 @@
                              group it resolved to (at any depth) are passed on as raw Go values -
                              "Resolve never yields a LogValuer"        (RecordComplete, AddsGiven)
      "ResolveOnce"           LogValue() is asked once: a LogValuer that resolves to a LogValuer is
-                             passed on as a raw Go value                (RecordComplete, AddsGiven) *)
+                             passed on as a raw Go value                (RecordComplete, AddsGiven)
+     "ZeroTimeNow"           a record whose time is the zero time.Time is stamped with the time of the
+                             call ("a record that brings no time of its own")           (OwnTimeKept)
+     "HandleSerialised"      Handle holds a lock shared by the whole handler family for all of its
+                             body: a nested record through that family never returns  (NestedReturns)
+     "NestedSharesRecord"    the inner record is built in the outer's scratch: it comes out with the
+                             outer's time and the outer handler's attributes       (NestedOwnContent) *)
 EXTENDS Levels, SequencesExt, FiniteSetsExt
 
 CONSTANTS
@@ -145,6 +193,10 @@ CONSTANTS
     DeriveFromAny,   \* TRUE: derive from any handler (tree); FALSE: only from the newest (chain)
     ProbeAll,        \* TRUE: probe every handler in every state; FALSE: only the newest one
     HandleCells,     \* sequence of probes [v, sh, via, t, mi]: slog level, record shape, "logger"/"rec", time id, message id
+    RecTimes,        \* sequence of record times [d, s, n, off, kind] (time id = index; 0 = "now", see RECORD TIMES)
+    NeedTimeKinds,   \* kinds of record times the Handle probes of the configuration must contain (see TimeCover)
+    NestCells,       \* sequence of nested probes [v, sh, via, t, mi, car, k, cv, q]: the outer record as in HandleCells
+                     \* plus the carrier (car, kind k and value id cv of what it yields) and the inner record q = [v, sh, via, t, mi]
     HMsgs,           \* sequence of record messages (byte sequences)
     BridgeCfgs,      \* sequence of bridge set-ups [L, sev, f]: logger level, bridge severity, format
     BMsgs,           \* sequence of std-log messages (byte sequences)
@@ -304,6 +356,38 @@ ASSUME ValuerCover == /\ NeedValuerClasses \subseteq ClassesOf(RecTrees, {Handle
                       /\ NeedValuerClasses \subseteq ClassesOf(DerivTrees, DerivOffered)
 
 -----------------------------------------------------------------------------
+(* record times *)
+
+DaySecs == 86400
+TimeIds == 0..Len(RecTimes)                     \* 0 = stamped by log/slog.Logger during the call
+
+\* DECLARATIVE: the instant a catalogue time denotes, normalised to UTC
+Instant(tm) == LET x == tm.s - tm.off IN [d |-> tm.d + (x \div DaySecs), s |-> x % DaySecs, n |-> tm.n]
+ZeroInstant == [d |-> 0, s |-> 0, n |-> 0]
+IsZeroTime(tm) == Instant(tm) = ZeroInstant     \* time.Time.IsZero(): the instant, in whatever zone
+TimeKind(t) == IF t = 0 THEN "now" ELSE RecTimes[t].kind
+
+\* MECHANISM: the time (id) the handler hands to the underlying logger
+EmitTime(t) == IF t # 0 /\ "ZeroTimeNow" \in Deviations /\ IsZeroTime(RecTimes[t]) THEN 0 ELSE t
+
+ASSUME TimesWellFormed ==
+    /\ (0 - 1) \div DaySecs = 0 - 1 /\ (0 - 1) % DaySecs = DaySecs - 1       \* floor division, as Instant needs it
+    /\ \A t \in DOMAIN RecTimes :
+           LET tm == RecTimes[t]
+           IN /\ tm.s \in 0..(DaySecs - 1) /\ tm.n \in 0..999999999 /\ tm.off \in (1 - DaySecs)..(DaySecs - 1)
+              /\ Instant(tm).s \in 0..(DaySecs - 1)
+              /\ Instant(tm).d \in 0..3652058                                    \* 0001-01-01 .. 9999-12-31, in UTC
+              /\ (tm.kind \in {"zero", "zero-zone"}) = IsZeroTime(tm)
+              /\ tm.kind = "zero" => tm.off = 0
+              /\ tm.kind = "zero-zone" => tm.off # 0
+              /\ tm.kind = "epoch" => Instant(tm) = [d |-> 719162, s |-> 0, n |-> 0]
+              /\ tm.kind = "y9999" => Instant(tm).d = 3652058
+              \* "zone": the same instant is in the catalogue a second time, expressed in another zone
+              /\ tm.kind = "zone" => \E u \in DOMAIN RecTimes : RecTimes[u].off # tm.off /\ Instant(RecTimes[u]) = Instant(tm)
+\* not vacuous: the records probed carry the kinds of time the configuration asks for
+ASSUME TimeCover == NeedTimeKinds \subseteq {TimeKind(HandleCells[c].t) : c \in DOMAIN HandleCells}
+
+-----------------------------------------------------------------------------
 (* the underlying logger and the handlers *)
 
 FmtOf(o) == IF o.json THEN "json" ELSE IF o.nocolor THEN "logfmt" ELSE "color"
@@ -339,14 +423,59 @@ EnabledSet(s, h, v) == IF v \in Std THEN {Gate(s, h.lg.level, Namesake(v))} ELSE
 \* t = time id of the record (0 = "taken by log/slog.Logger during the call"), m = message bytes
 \* the record's own attributes come last at their level (step n + 1)
 RecStep(h) == IF "AttrsBehindRecord" \in Deviations THEN 0 ELSE h.n + 1
-Canon(h, sev, sh, t, m) ==
-    [dest |-> h.lg.dest, fmt |-> h.lg.fmt, sev |-> sev, msg |-> m, t |-> t,
-     given |-> h.added, rec |-> Qualify(h.pre, h.preo, RecStep(h), RecConv[sh])]
+\* ... with the record's attributes given as leaves
+CanonL(h, sev, leaves, t, m) ==
+    [dest |-> h.lg.dest, fmt |-> h.lg.fmt, sev |-> sev, msg |-> m, t |-> EmitTime(t),
+     given |-> h.added, rec |-> Qualify(h.pre, h.preo, RecStep(h), leaves)]
+Canon(h, sev, sh, t, m) == CanonL(h, sev, RecConv[sh], t, m)
 
 \* destination class of a record: the logger routes by severity (error device or not)
 WriterOf(s, dest, sev) ==
     IF dest = "cfg" THEN (IF ErrClass(sev, s.errdev) THEN 2 ELSE 1)
     ELSE (IF ErrClass(sev, s.errdev) THEN -2 ELSE -1)
+
+-----------------------------------------------------------------------------
+(* nested records: a record whose first attribute - the carrier - logs another record through handler
+   h2 while the outer record is being handled (c = a nest cell or a recorded Nested call) *)
+
+Carriers == {"valuer", "valuer-group", "stringer", "error"}
+CarrierKey(car) == IF car = "valuer-group" THEN "zzq" ELSE "nq"
+CarrierMember == "id"
+
+\* what the carrier contributes to the outer record's tree: it is the first attribute of the list
+CarrierLeaves(c) ==
+    IF c.car = "valuer-group"
+    THEN <<[p |-> <<CarrierKey(c.car), CarrierMember>>, k |-> c.k, v |-> c.cv, o |-> <<1, 1>>, w |-> <<1, 0>>]>>
+    ELSE <<[p |-> <<CarrierKey(c.car)>>, k |-> c.k, v |-> c.cv, o |-> <<1>>, w |-> <<IF c.car = "valuer" THEN 1 ELSE 0>>]>>
+ShiftOne(leaves) == [i \in 1..Len(leaves) |-> [leaves[i] EXCEPT !.o = <<@[1] + 1>> \o Tail(@)]]
+NestLeaves(c) == CarrierLeaves(c) \o ShiftOne(RecConv[c.sh])
+
+CarrierOK(c) == /\ c.car \in Carriers
+                /\ c.car = "stringer" => c.k = "any"
+                /\ c.car = "error" => c.k = "err"
+                /\ c.car \in {"valuer", "valuer-group"} => c.k \notin {"any", "err", "raw"}
+
+\* the handler the inner record goes through: h2 = 0 is the handler a second NewSlogHandler(logger,
+\* same options) returns - nothing added, no group, the logger as it is
+TargetOf(s, h2) == IF h2 = 0 THEN RootHandler(s.lg) ELSE s.hs[h2].s
+
+\* how h2 is related to h (names a failure and the coverage, nothing else)
+RECURSIVE IsAnc(_, _, _)
+IsAnc(s, a, b) == b # 0 /\ (s.hs[b].parent = a \/ IsAnc(s, a, s.hs[b].parent))
+Rel(s, h, h2) ==
+    IF h2 = 0 THEN "other" ELSE IF h2 = h THEN "same"
+    ELSE IF IsAnc(s, h2, h) THEN "ancestor" ELSE IF IsAnc(s, h, h2) THEN "descendant"
+    ELSE IF s.hs[h].parent = s.hs[h2].parent THEN "sibling" ELSE "cousin"
+
+\* MECHANISM: does the nested call come back?  (every handler of s.hs stems from the one NewSlogHandler)
+NestedHangs(s, h, h2) == "HandleSerialised" \in Deviations /\ h2 # 0
+
+\* the expected pair of records once the severities are fixed
+NestedPair(s, h, h2, c, sevO, sevI) ==
+    LET outer == CanonL(s.hs[h].s, sevO, NestLeaves(c), c.t, HMsgs[c.mi])
+        inner == Canon(TargetOf(s, h2), sevI, c.q.sh, c.q.t, HMsgs[c.q.mi])
+    IN [outer |-> outer,
+        inner |-> IF "NestedSharesRecord" \in Deviations THEN [inner EXCEPT !.t = outer.t, !.given = outer.given] ELSE inner]
 
 -----------------------------------------------------------------------------
 (* equal keys: which leaves of a set S of qualified leaves must be in the output *)
@@ -415,7 +544,7 @@ Blank(m) == \A i \in 1..Len(m) : m[i] = NL
 NoBridge == [sev |-> 0]
 
 \* a new process
-InitState == [phase |-> "init", lg |-> [level |-> PkgLevel, fmt |-> "color"], caller |-> FALSE, dbg |-> FALSE,
+InitState == [phase |-> "init", lg |-> [level |-> PkgLevel, fmt |-> "color"], oi |-> 0, caller |-> FALSE, dbg |-> FALSE,
               hs |-> <<>>, br |-> NoBridge, reg |-> <<>>, treat |-> TreatInit, errdev |-> ErrDevInit, rev |-> RevInit]
 
 \* a new behaviour in the SAME process: loggers, handlers, flags are made anew, the registry stays
@@ -425,7 +554,7 @@ Entry(s, hist, parent) == [s |-> s, hist |-> hist, parent |-> parent]
 
 NewHandlerStep(s, L, oi) ==
     LET lgr == AdaptedLogger(L, Opts[oi])
-    IN [s EXCEPT !.phase = "handler", !.lg = lgr, !.caller = ~Opts[oi].nosource,
+    IN [s EXCEPT !.phase = "handler", !.lg = lgr, !.oi = oi, !.caller = ~Opts[oi].nosource,
                  !.dbg = s.dbg \/ L = Debug \/ Opts[oi].level = Debug,
                  !.hs = <<Entry(RootHandler(lgr), <<>>, 0)>>]
 
@@ -449,6 +578,8 @@ WithGroup(h, g) == CanDerive(st, h) /\ st' \in DeriveSteps(st, h, GroupStep(g))
 Probed(s, h) == s.phase = "handler" /\ h \in 1..Len(s.hs) /\ (ProbeAll \/ h = Len(s.hs))
 Enabled(h, v) == Probed(st, h) /\ UNCHANGED st
 Handle(h, ci) == Probed(st, h) /\ UNCHANGED st
+\* a nested pair of records: outer through h, inner - logged by the outer's carrier - through h2
+Nested(h, h2, ni) == Probed(st, h) /\ h2 \in 0..Len(st.hs) /\ ~NestedHangs(st, h, h2) /\ UNCHANGED st
 \* Entry.Log concerns the adapted logger only: probed once, right after NewSlogHandler
 EntryLog(v) == st.phase = "handler" /\ Len(st.hs) = 1 /\ UNCHANGED st
 NewBridgeStep(s, L, sev, f) == [s EXCEPT !.phase = "bridge", !.lg = [level |-> L, fmt |-> f], !.br = [sev |-> sev],
@@ -466,6 +597,7 @@ Next ==
     \/ \E h \in 1..MaxHandlers, g \in GroupNames : WithGroup(h, g)
     \/ \E h \in 1..MaxHandlers, v \in SlogLevels : Enabled(h, v)
     \/ \E h \in 1..MaxHandlers, ci \in DOMAIN HandleCells : Handle(h, ci)
+    \/ \E h \in 1..MaxHandlers, h2 \in 0..MaxHandlers, ni \in DOMAIN NestCells : Nested(h, h2, ni)
     \/ \E v \in SlogLevels : EntryLog(v)
     \/ \E bi \in DOMAIN BridgeCfgs : NewBridge(bi)
     \/ \E mi \in DOMAIN BMsgs : BridgeWrite(mi)
@@ -486,6 +618,7 @@ RootCfg == [level |-> st.lg.level, fmt |-> st.lg.fmt, dest |-> "cfg"]
 TypeOK ==
     /\ st.phase \in {"init", "handler", "bridge"}
     /\ st.lg.fmt \in {"json", "logfmt", "color"}
+    /\ st.oi \in 0..Len(Opts) /\ (st.oi # 0 <=> st.phase = "handler")
     /\ Len(st.hs) <= MaxHandlers
     /\ st.phase = "handler" <=> Len(st.hs) >= 1
     /\ \A h \in Handlers : st.hs[h].parent \in 0..(h - 1) /\ (st.hs[h].parent = 0 <=> h = 1)
@@ -529,6 +662,51 @@ RecordWins ==
     \A h \in Handlers, sh \in DOMAIN RecShapes :
         LET c == Canon(st.hs[h].s, Info, sh, 1, HMsgs[1])
         IN \A L \in ToSet(c.rec) : Displaced(L, AllLeaves(c)) => Displaced(L, ToSet(c.rec))
+
+\* "the record's own time": whatever time.Time the record carries - the zero value included - is the
+\* time handed to the underlying logger; only log/slog.Logger's own records (id 0) carry "now"
+OwnTimeKept ==
+    \A h \in Handlers, t \in TimeIds : Canon(st.hs[h].s, Info, 1, t, HMsgs[1]).t = t
+
+\* the cells of the nested probes make sense: known carriers, inner and outer told apart by their messages
+ASSUME NestCellsOK == \A ni \in DOMAIN NestCells :
+                   LET c == NestCells[ni]
+                   IN /\ CarrierOK(c) /\ c.t \in TimeIds /\ c.q.t \in TimeIds
+                      /\ c.sh \in DOMAIN RecTrees /\ c.q.sh \in DOMAIN RecTrees
+                      /\ FirstLine(HMsgs[c.mi]) # FirstLine(HMsgs[c.q.mi])
+
+\* a nested record - through the same handler, any handler of the family, another handler on the
+\* logger - always comes back
+NestedReturns == \A h \in Handlers, h2 \in 0..Len(st.hs) : ~NestedHangs(st, h, h2)
+
+\* "... emitted once each with their own content": message, time, severity and attributes of each of the
+\* two records are its own, the attributes given by WithAttrs and the groups those of its OWN handler,
+\* the carrier's content is in the outer record and only there; one logger: same destination and format
+NestedOwnContent ==
+    \A h \in Handlers, h2 \in 0..Len(st.hs), ni \in DOMAIN NestCells :
+        LET c == NestCells[ni]
+            pr == NestedPair(st, h, h2, c, Warn, Info)
+            og == OpenGroups(st.hs[h].hist)
+            og2 == IF h2 = 0 THEN <<>> ELSE OpenGroups(st.hs[h2].hist)
+        IN /\ pr.outer.msg = HMsgs[c.mi] /\ pr.inner.msg = HMsgs[c.q.mi]
+           /\ pr.outer.t = c.t /\ pr.inner.t = c.q.t
+           /\ pr.outer.sev = Warn /\ pr.inner.sev = Info
+           /\ ToSet(pr.outer.given) = GivenBy(st.hs[h].hist)
+           /\ ToSet(pr.inner.given) = (IF h2 = 0 THEN {} ELSE GivenBy(st.hs[h2].hist))
+           /\ Len(pr.outer.rec) = Len(RecShapes[c.sh]) + 1 /\ Len(pr.inner.rec) = Len(RecShapes[c.q.sh])
+           /\ pr.outer.rec[1].p = og \o CarrierLeaves(c)[1].p /\ pr.outer.rec[1].k = c.k /\ pr.outer.rec[1].v = c.cv
+           /\ \A x \in 1..Len(RecShapes[c.sh]) : /\ pr.outer.rec[x + 1].p = og \o RecShapes[c.sh][x].p
+                                                   /\ pr.outer.rec[x + 1].k = RecShapes[c.sh][x].k /\ pr.outer.rec[x + 1].v = RecShapes[c.sh][x].v
+           /\ \A x \in 1..Len(pr.inner.rec) : /\ pr.inner.rec[x].p = og2 \o RecShapes[c.q.sh][x].p
+                                                /\ pr.inner.rec[x].k = RecShapes[c.q.sh][x].k /\ pr.inner.rec[x].v = RecShapes[c.q.sh][x].v
+           /\ pr.outer.dest = "cfg" /\ pr.inner.dest = "cfg" /\ pr.outer.fmt = st.lg.fmt /\ pr.inner.fmt = st.lg.fmt
+
+\* the handler a second NewSlogHandler(logger, same options) returns is "another handler on the same
+\* logger": making it changes nothing - level, format, caller flag, debug mode stay as they are
+SecondAdapterSame ==
+    st.phase = "handler" =>
+        LET s2 == NewHandlerStep(st, st.lg.level, st.oi)
+        IN s2.lg = st.lg /\ s2.caller = st.caller /\ s2.dbg = st.dbg /\ s2.oi = st.oi
 
 \* "the namesake severity for Debug/Info/Warn/Error" - in every state, i.e. whatever was registered
 StdNamesake ==
